@@ -692,6 +692,10 @@ static struct json_object *hist_build(int k)
 	case 16: o = json_object_new_int(7); json_object_set_userdata(o, (void *)"seven", NULL); break;
 	case 17: o = json_object_new_string("s"); json_object_set_serializer(o, NULL, (void *)"tag", NULL); break;
 	case 18: o = json_object_new_boolean(1); json_object_set_userdata(o, (void *)"yes", NULL); break;
+	/* small values in the unsigned representation (the re-parsed text comes back signed) */
+	case 19: o = json_object_new_uint64(0); break;
+	case 20: o = json_object_new_int64(5); json_object_set_uint64(o, 0); break;
+	case 21: o = json_object_new_uint64(1); break;
 	}
 	return o;
 }
@@ -717,13 +721,16 @@ static V *hist_model(int k)
 	case 15: return v_dbl(-0.25);
 	case 16: return v_int(0, 7);
 	case 17: return v_strz("s");
-	default: return v_bool(1);
+	case 18: return v_bool(1);
+	case 19: return v_int(0, 0);
+	case 20: return v_int(0, 0);
+	default: return v_int(0, 1);
 	}
 }
 static void fam_histories(void)
 {
 	cur_fam = "set-histories";
-	for (int k = 0; k <= 18; k++)
+	for (int k = 0; k <= 21; k++)
 		for (int wrap = 0; wrap < 2; wrap++)
 		{
 			va_reset();
